@@ -9,7 +9,7 @@ def run(ctx):
     base = ["-std=c++17", "-O1", "-g1", "-w", "-DAMC_NONSTD_FEATURES", "-fsanitize=address"]
     configs = []
     for vec, vn in ((0, "amcvector"), (1, "smallvector4"), (3, "stdvector")):
-        for cmp, cn in ((0, "less"), (1, "greater")):
+        for cmp, cn in ((0, "less"), (1, "greater"), (2, "transparent")):
             configs.append(("%s-%s" % (vn, cn), base + ["-DC19_VEC=%d" % vec, "-DC19_CMP=%d" % cmp]))
     cov = grids.run_grids(ctx, "grid_c19.cpp", "G19", configs, ["--nmax", "128" if q else "4096"],
                           lambda f: re.sub(r"\d+", "#", "|".join(f.split("|")[2:]) if f.startswith("n=") else f),
